@@ -1026,7 +1026,10 @@ class BuiltinFuncCall(Expr):
     @property
     def type(self):
         func_type = {
-            'abs': lambda: self.args[0].type,
+            # (the argument count is checked later: without an
+            # argument there is no type yet)
+            'abs': lambda: (self.args[0].type if self.args
+                            else Type.UNKNOWN),
             'asc': Type.INTEGER,
             'chr$': Type.STRING,
             'cint': Type.INTEGER,
